@@ -135,6 +135,7 @@ type gBias struct {
 	Cancel       bool
 	FanIn        bool
 	Matrix       bool
+	FailSibling  bool // a third of the programs get a failing leaf task that is made a sibling dependency of references to deduplicated tasks
 	LoopKinds    bool // loops take their list from a variable (plain / split) or from the task's sources
 	DynVars      bool // tasks get a dynamic (sh:) variable (race-sim: exercises the dynamic variable cache)
 }
@@ -290,6 +291,28 @@ func genG(ch *vs.Choices, b gBias) *gProg {
 			t.VUse = "env"
 		}
 		p.Tasks = append(p.Tasks, t)
+	}
+	if b.FailSibling && ch.Bool(1, 3) {
+		// a leaf that always fails, as a sibling of dependencies on deduplicated tasks: the failure cancels the
+		// siblings' context while a shared execution that one of them started (or waits for) is under way
+		tf := &gTask{Idx: n, Name: fmt.Sprintf("t%d", n), Run: "always", Cmds: []gCmd{{Kind: gProbe, Fail: 1 + ch.Draw(255)}}}
+		used := false
+		for _, t := range p.Tasks {
+			shared := false
+			for _, d := range t.Deps {
+				if effRun(p, p.Tasks[d.Target]) != "always" {
+					shared = true
+				}
+			}
+			if shared && ch.Bool(1, 2) {
+				t.Deps = append(t.Deps, gRef{Target: n})
+				used = true
+			}
+		}
+		if used {
+			p.Tasks = append(p.Tasks, tf)
+			n++
+		}
 	}
 	// deduplicated tasks may be given names that differ only before the last ':' ("q3:job", "q5:job"): the
 	// identity of a run: once task is its whole name
